@@ -425,8 +425,18 @@ func (r *run) applyContract(fr *frame, st *State, ct *Contract, sig *types.Signa
 	}
 	env.st = st
 	env.old = pre
+	cguard := "true"
+	if len(ct.Assuming) > 0 {
+		penv := *env
+		penv.st = pre
+		var gs []string
+		for _, a := range ct.Assuming {
+			gs = append(gs, r.specBool(&penv, a.Expr, a.Text))
+		}
+		cguard = and(gs...)
+	}
 	for _, en := range ct.Ensures {
-		r.assumeClause(env, reach, en.Expr, en.Text)
+		r.assumeClause(env, and(reach, cguard), en.Expr, en.Text)
 	}
 	for _, en := range ct.Defines {
 		r.assumeClause(env, reach, en.Expr, en.Text)
